@@ -247,9 +247,23 @@ def slots(ctx):
                         walk(s.body)
                         walk(s.orelse)
                 elif isinstance(s, ast.Assign) and (dotted(s.targets[0]) or '').startswith('keys.ltk_'):
-                    out[dotted(s.targets[0])[5:]] = dotted(s.value)
+                    out[dotted(s.targets[0])[5:]] = key_source(s.value)
         walk(fn.body)
         return out
+
+    def key_source(v):
+        # the key material a stored PairingKeys.Key carries: `self.ltk` (generated here) or `self.peer_ltk` (received)
+        if isinstance(v, ast.Name):
+            defs = [n.value for n in walk_local(fn) if isinstance(n, ast.Assign) and dotted(n.targets[0]) == v.id]
+            return key_source(defs[0]) if len(defs) == 1 else None
+        if isinstance(v, ast.Call) and call_attr(v) == 'Key':
+            val = kwarg(v, 'value')
+            t = norm(val) if val is not None else ''
+            if t in ('self.ltk',):
+                return 'our_ltk_key'
+            if t in ('self.peer_ltk', "self.peer_ltk or b''"):
+                return 'peer_ltk_key'
+        return None
 
     abstract = {True: {'our_ltk_key': 'K_I', 'peer_ltk_key': 'K_R'}, False: {'our_ltk_key': 'K_R', 'peer_ltk_key': 'K_I'}}
     store = {}
@@ -270,6 +284,13 @@ def slots(ctx):
             kc, kp = c_store.get(central_slot), p_store.get(periph_slot)
             R.check(kc is not None and kc == kp, rule, f'{S}.on_pairing | legacy LTK, {arrangement}', f'central uses {kc}, peripheral answers {kp}',
                     f'after legacy bonding, on reconnection in {arrangement} the central (pairing {"initiator" if central_is_initiator else "responder"}) uses {kc} but the peripheral answers {kp}: encryption fails', p.loc(fn))
+    # only keys that were really exchanged are stored: the peer's key under a test that one was received, our own under a
+    # test that our negotiated key distribution contains ENC_KEY
+    for slot, need in (('ltk_central', lambda g: any(t == 'self.peer_ltk' and pol for t, pol in g)), ('ltk_peripheral', lambda g: any('ENC_KEY' in t and 'key_distribution' in t and pol for t, pol in g))):
+        st_ = [n for n in walk_local(fn) if isinstance(n, ast.Assign) and dotted(n.targets[0]) == f'keys.{slot}']
+        g = [(norm(t), pol) for n in st_ for t, pol in paths.flat_guards(n)]
+        R.check(len(st_) == 1 and need(g), rule, f'{S}.on_pairing | {slot} only if exchanged', 'stored only when that key was actually distributed in this pairing',
+                f'keys.{slot} is stored whether or not the key was exchanged: with a one-sided ENC_KEY distribution a store holds an empty key or an LTK the peer never received, and the two sides disagree on a later connection', p.loc(st_[0]) if st_ else p.loc(fn))
     # SC: one shared ltk slot, read first by both readers
     R.check('keys.ltk = PairingKeys.Key(value=self.ltk, authenticated=authenticated)' in norm(fn) and 'if keys.ltk:' in glk_src, rule, f'{S}.on_pairing | SC LTK', 'single ltk slot written and read first', 'SC LTK slot handling changed', p.loc(fn))
     # EDIV/Rand are stored with the key they belong to
